@@ -8,7 +8,8 @@ from .. import core
 PROP = 'C07'
 
 SCALARS = ['0', '-0', '1', '1.0', '0.5', '2', '-1', '1e0', '100', '1e2']
-STRINGS = ['""', '"a"', '"A"', '"ab"', '"Ab"', '"aB"', '"b"', '" a"']
+STRINGS = ['""', '"a"', '"A"', '"ab"', '"Ab"', '"aB"', '"b"', '" a"', '"a[0]"', '"a{0}"', '"A[0]"', '"@"', '"`"', '"x^"', '"x~"', '"X^"', '"\\"', '"|"', '"z]"', '"z}"', '"Z]"',
+           '"\xe4"', '"\xc4"', '"1"', '"_"']
 BOOLS = ['true', 'false']
 CODES = ['{1}', '{ 1 }', '{1;2}', '{}', '{a}', '{A}']
 
